@@ -3,5 +3,5 @@
 (* MaxLen x every cut into <= MaxFrag fragments (empty ones included) x    *)
 (* every call with every argument of the bounded sets.                     *)
 EXTENDS Message
-View == <<flat, cur, cont, mode>>      \* obs/des are observations, not state
+View == <<flat, cur, cont, mode, ebase>>      \* obs/des are observations, not state
 =============================================================================
